@@ -436,8 +436,11 @@ class TSLAttr_get_step_ops:
     target = "snaxc.dialects.tsl.TiledStridedLayoutAttr.get_step_ops"
     shapes = ([dict(rank=r, depth=d, dyn=v, bits=b, in_bytes=ib, strided=False) for r in (1, 2, 3) for d in (1, 2) for v in DYN
                for b, ib in ((32, True), (8, False), (64, True)) if r * d <= 4]
-              + [dict(rank=r, depth=1, dyn="dynboth", bits=16, in_bytes=True, strided=True) for r in (1, 2)])
-    quick = lambda sh: sh["rank"] <= 2 and sh["bits"] != 64
+              + [dict(rank=r, depth=1, dyn="dynboth", bits=16, in_bytes=True, strided=True) for r in (1, 2)]
+              # element types that do not fill whole bytes (i1 masks, i4 / i12 quantised data): one resp. two bytes each
+              + [dict(rank=r, depth=d, dyn=v, bits=b, in_bytes=True, strided=False) for r, d in ((1, 1), (1, 2), (2, 1)) for v in DYN for b in (1, 4, 12)]
+              + [dict(rank=1, depth=1, dyn="dynboth", bits=b, in_bytes=True, strided=True) for b in (4, 12)])
+    quick = lambda sh: sh["rank"] <= 2 and sh["bits"] != 64 and sh["bits"] != 4
     total = True
     compare_ret = False
 
@@ -456,7 +459,7 @@ class TSLAttr_get_step_ops:
         tsl = attr.data
         bound_ops, (ops, mapping) = ret
         R, D = sh["rank"], sh["depth"]
-        el = sh["bits"] // 8 if sh["in_bytes"] else 1
+        el = ((sh["bits"] + 7) // 8) if sh["in_bytes"] else 1  # bytes an element occupies in memory: ceil(bits / 8)
         check("one step op per (dim, depth)", sorted(mapping.keys()) == [(d, k) for d in range(R) for k in range(D)])
         check("every mapped op is in the returned op list (def before use)", all(any(o is mapping[key] for o in ops) for key in mapping))
         # static steps: exactly step * element bytes
@@ -496,7 +499,7 @@ class TSLAttr_get_step_ops:
                 prev = (cur, den(bound_ops[(d, 0)]))
         if sh["strided"]:
             for d in range(R):
-                check(f"strided memref: dynamic step {d} is the run-time stride in bytes", den(mapping[(d, 0)]) == rt_stride_of(m, d) * (sh["bits"] // 8))
+                check(f"strided memref: dynamic step {d} is the run-time stride in bytes", den(mapping[(d, 0)]) == rt_stride_of(m, d) * ((sh["bits"] + 7) // 8))
 
     def canary(sh, a, ret):
         check("canary: steps ignore the element size", all(den(o) == 1 for o in ret[1][1].values()))
@@ -513,7 +516,7 @@ class TSLAttr_get_step_ops_strided_mixed_depths:
     (what TransformDMA builds from the partner's tile bounds): the run-time stride of dimension d belongs to the
     INNERMOST level of that dimension, the outer levels follow by multiplication with the inner bounds"""
     target = "snaxc.dialects.tsl.TiledStridedLayoutAttr.get_step_ops"
-    shapes = [dict(depths=d, bits=b) for d in ((2, 1), (1, 2), (2, 2), (3, 1)) for b in (8, 32)]
+    shapes = [dict(depths=d, bits=b) for d in ((2, 1), (1, 2), (2, 2), (3, 1)) for b in (8, 32)] + [dict(depths=(2, 1), bits=12)]
     total = True
     compare_ret = False
 
@@ -535,7 +538,7 @@ class TSLAttr_get_step_ops_strided_mixed_depths:
     def ensures(sh, a, ret):
         attr, m = a
         bound_ops, (ops, mapping) = ret
-        el = sh["bits"] // 8
+        el = ((sh["bits"] + 7) // 8)
         want = [(d, k) for d, dep in enumerate(sh["depths"]) for k in range(dep)]
         check("one step op per (dim, depth)", sorted(mapping.keys()) == want)
         for d, dep in enumerate(sh["depths"]):
@@ -612,7 +615,7 @@ class LowerExtractAlignedPointerOp_contract:
     def ensures(sh, a, ret):
         tsl, m, tiles, bounds = a
         check("the pointer extraction of a subview of a tsl memref is lowered", ret["replaced"])
-        el = sh["bits"] // 8
+        el = ((sh["bits"] + 7) // 8)
         base = den(_memref.ExtractAlignedPointerAsIndexOp(m))
         want = base
         for d in range(2):
